@@ -11,6 +11,7 @@ amoco.system.core.open -> SimFile) or with a bytes argument.  Oracles:
  (3) bounded allocation: tracemalloc peak <= 512 MiB + 64 x file size;
  (4) fault-free valid bases are identified as their own format.
 """
+import hashlib
 import io
 import random
 import sys
@@ -67,6 +68,7 @@ PROBES = {
         "valid-base-identified",
         "memory-measured",
         "corrupted-hex-or-srec-rejected",
+        "canary-identified-after-faulty-history",
     ]
 }
 
@@ -562,8 +564,13 @@ def one_case(case, st, measure_mem):
             if want is not None and case.get("valid", False):
                 if outcome != want:
                     viol = {"class": "valid-file-misidentified", "signature": "filesim:misidentified:%s-as-%s" % (want, outcome), "detail": {"want": want, "got": outcome}}
+                    if case.get("canary"):
+                        viol["class"] = "valid-file-misidentified-after-history"
+                        viol["signature"] += ":after-history"
                 else:
                     st.hit("probe:valid-base-identified")
+                    if case.get("canary"):
+                        st.hit("probe:canary-identified-after-faulty-history")
         if changed and outcome == "shellcode" and case.get("base", "").startswith(("synth:hex", "synth:srec", "avr/")):
             st.hit("probe:corrupted-hex-or-srec-rejected")
     if viol is not None or outcome.startswith(("exc", "budget")):
@@ -582,6 +589,9 @@ VALID_SAMPLES = {
     "x64/merge.elf64", "x64/test_full.elf64", "x64/test_partial.elf64", "x64/toc.osx/toc.mach-o", "x64/toc.osx/lib/libtoc.dylib.mach-o",
     "arm/hw", "arm/sc", "arm/sc.o", "arm/sc_thumb.o", "sparc/saverestore", "sparc/solaris-sed.elf", "ebpf/bpf_patched_prog",
 }
+
+
+CANARY_EVERY = 20
 
 
 def is_valid_base(name):
@@ -711,6 +721,22 @@ def run(spec):
 
     else:
         g = None
+    if g is not None and spec["kind"] in ("random", "enum-field", "enum-trunc"):
+        # canaries: identification is a function of the bytes, whatever malformed input the
+        # process has parsed before -- every CANARY_EVERY cases a valid sample is identified
+        # again (fault-free) and must be claimed by its own format
+        inner = g
+        cstate = {"n": 0, "k": 0}
+        cnames = [n for n in BASE_NAMES if is_valid_base(n)]
+
+        def g(r, _, inner=inner):  # noqa: F811
+            cstate["n"] += 1
+            if cnames and cstate["n"] % CANARY_EVERY == 0:
+                cstate["k"] += 1
+                h = int.from_bytes(hashlib.sha256(b"%d|%d" % (spec.get("seed", 0) & 0xFFFFFFFF, cstate["k"])).digest()[:4], "big")
+                return {"op": "case", "base": cnames[h % len(cnames)], "faults": [], "route": "path" if h & 0x10000 else "bytes", "valid": True, "canary": True}
+            return inner(r, _)
+
     src = OpSource(spec, g)
     st = Stats()
     wlog = EventLog()
@@ -769,7 +795,8 @@ def run(spec):
         res["survey"] = survey
     if viol:
         res["violation"] = viol
-        res["trace"] = [src.trace[-1]]
+        # a case is independent of the ones before it -- unless a canary says otherwise
+        res["trace"] = list(src.trace) if viol["class"].endswith("after-history") else [src.trace[-1]]
         # the remaining cases of this world were not run: hand them back
         res["resume"] = {"done": ncases}
     elif sample is not None:
